@@ -213,7 +213,8 @@ def proc_cases(points, rnd):
         for done in (0, 1):
             for ph in PH:
                 term.append(dict(proto=proto, sig="term", mode="complete", conns={"c1": one(ph, done), "c2": NONE}))
-        for ph in ("wait", "resp"):      # a stalled environment: the stop must end by its own timeout (15 s)
+        for ph in ("wait",):      # a stalled environment: the stop must end by its own timeout (15 s); a response stalled
+            #                           that long would run into the proxy's 15 s connection write timeout instead
             term.append(dict(proto=proto, sig="term", mode="hang", conns={"c1": one(ph), "c2": NONE}))
         for p in rnd.sample(two, min(6, len(two))):
             term.append(dict(proto=proto, sig="term", mode="complete", conns=p["conns"]))
